@@ -215,6 +215,10 @@ class Ctx:
                 self.last_target_case = case
                 raise _TargetHit()
             return
+        dump = os.environ.get("VERIF_DUMP_FAILURES")  # triage aid: every failing (bucket, case), not only the smallest
+        if dump:
+            with open(dump, "a") as fh:
+                fh.write(canon({"bucket": b, "case": case, "detail": str(detail)[:300]}) + "\n")
         size = len(canon(case))
         cur = self.failures.get(b)
         if cur is None or size < cur["size"]:
